@@ -43,6 +43,70 @@ static std::vector<std::string> split(const std::string& s, char c) {
 	for (char ch : s) { if (ch == c) { r.push_back(cur); cur.clear(); } else cur += ch; }
 	r.push_back(cur); return r;
 }
+static bool g_tables = false;   // `ug` cases: see dump_tables
+
+// Direct tie of the cxx2coq-generated operator== / erase(first,last) (Gen_WrapEq.v, Gen_WrapErase.v): every abstract primitive of
+// the generated functions is EVALUATED ON THE REAL CONTAINERS here and printed as a table; the driver runs the generated
+// decision logic over these tables; its answer must be what the real operator== / erase did.   "<tables> ||| <real results>"
+template<typename UM>
+static std::string dump_tables(UM& curOrig, UM& oth) {
+	std::ostringstream T, R;
+	const int B = 1000;
+	auto& L = curOrig.get_nested_container(); auto& Rt = oth.get_nested_container();
+	// ---- operator==: GetCount, key bounds of left, Find in right, key ==, per-key counts, std::is_permutation
+	std::vector<typename UM::nested_container_type::ConstKeyIterator> rkeys;
+	{ const auto& cR = Rt; for (auto ki = cR.GetKeyBounds().GetBegin(); !!ki; ++ki) rkeys.push_back(ki); }
+	T << "EQ " << L.GetCount() << " " << Rt.GetCount();
+	{ const auto& cL = L; const auto& cR = Rt;
+	  for (auto ki = cL.GetKeyBounds().GetBegin(); !!ki; ++ki) {
+		auto f = cR.Find(ki->key); long fi = -1; int perm = 0;
+		if (!!f) { for (size_t j = 0; j < rkeys.size(); ++j) if (&rkeys[j]->key == &f->key) fi = (long)j;
+			if (f->GetCount() == ki->GetCount()) perm = std::is_permutation(ki->GetBegin(), ki->GetEnd(), f->GetBegin()) ? 1 : 0; }
+		T << " lk " << (long)ki->key.id * B + ki->key.tag << " " << ki->GetCount() << " " << fi << " " << perm;
+	  }
+	  for (auto& rk : rkeys) T << " rk " << (long)rk->key.id * B + rk->key.tag << " " << rk->GetCount();
+	}
+	R << "eq " << (curOrig == oth ? 1 : 0);
+	// ---- erase(first, last): positions of begin()..end(); key iterator / count of a position; MakeIterator(key, i)
+	UM c0(curOrig);
+	std::vector<std::pair<int, i64>> pairs; std::vector<typename UM::iterator> its;
+	for (auto it = c0.begin(); it != c0.end(); ++it) { pairs.push_back({it->first.id, it->second}); its.push_back(it); }
+	size_t n = pairs.size();
+	auto& N0 = c0.get_nested_container();
+	std::vector<int> keyIds; std::vector<size_t> keyCounts;
+	T << " ER " << n;
+	for (auto ki = N0.GetKeyBounds().GetBegin(); !!ki; ++ki) {
+		keyIds.push_back(ki->key.id); keyCounts.push_back(ki->GetCount());
+		T << " k " << ki->GetCount();
+		for (size_t i = 0; i <= ki->GetCount(); ++i) {          // MakeIterator(keyIter, i): which position of begin()..end() is it?
+			auto mi = N0.MakeIterator(ki, i); size_t pos = n;
+			size_t q = 0; for (auto itx = N0.GetBegin(); itx != N0.GetEnd(); ++itx, ++q) if (itx == mi) { pos = q; break; }
+			T << " " << pos;
+		}
+	}
+	for (size_t p = 0; p < n; ++p) {                                  // key_of(position) as an index into the key list
+		size_t kidx = 0; for (; kidx < keyIds.size(); ++kidx) if (keyIds[kidx] == pairs[p].first) break;
+		T << " p " << kidx << " " << pairs[p].first << " " << pairs[p].second;
+	}
+	for (size_t a = 0; a <= n && a <= 7; ++a) for (size_t b = a; b <= n && b <= a + 8; ++b) {
+		UM ci(curOrig);
+		std::vector<std::pair<int, i64>> chk; for (auto r : ci) chk.push_back({r.first.id, r.second});
+		if (chk != pairs) continue;                                   // (copies of the same source iterate alike; else skip)
+		auto fa = ci.begin(); for (size_t q = 0; q < a; ++q) ++fa;
+		auto fb = ci.begin(); for (size_t q = 0; q < b; ++q) ++fb;
+		T << " rg " << a << " " << b;
+		R << " rg ";
+		try {
+			ci.erase(typename UM::const_iterator(fa), typename UM::const_iterator(fb));
+			std::vector<std::pair<int, i64>> res; for (auto r : ci) res.push_back({r.first.id, r.second});
+			std::sort(res.begin(), res.end());
+			if (res.empty()) R << "-";
+			for (size_t q = 0; q < res.size(); ++q) R << (q ? "," : "") << res[q].first << ":" << res[q].second;
+		} catch (const std::invalid_argument&) { R << "throw"; }
+	}
+	return T.str() + " ||| " + R.str();
+}
+
 static bool pred(i64 a, i64 b, i64 m, i64 r, i64 k, i64 v) { return ((a * k + b * v) % m) == r; }
 
 template<typename UM>
@@ -176,6 +240,7 @@ static std::string run_case(int K, const std::vector<std::string>& ops) {
 		line << " eq=" << (e1 ? "T" : "F") << (e2 ? "T" : "F");
 		if (!fail.empty()) { line << " ORACLE-FAIL(" << fail << " @" << tok << ")"; break; }
 	}
+	if (g_tables) return dump_tables(cur, oth);
 	return line.str();
 }
 
@@ -188,7 +253,7 @@ int main() {
 		is >> kind >> b >> M >> hm >> K;
 		std::vector<std::string> ops; std::string t;
 		while (is >> t) ops.push_back(t);
-		g_hashmode = hm;
+		g_hashmode = hm; g_tables = (kind == "ug");
 		std::string res = "?cfg";
 		if (b == "L" && M == 7) res = run_case<UMap<momo::HashBucketLimP4<>, 7>>(K, ops);
 		else if (b == "O8" && M == 2) res = run_case<UMap<momo::HashBucketOpen8, 2>>(K, ops);
